@@ -113,16 +113,26 @@ def _whole_sources(cfg, e: ast.AST, at, _seen=None) -> List[Tuple[str, object, t
             if o.kind == "param":
                 out.append(("param", o.expr.arg, o.path))
             elif o.kind == "expr":
-                p = _peel(o.expr)
-                if p is not o.expr and not o.path and id(p) not in _seen:
-                    _seen.add(id(p))
-                    out += _whole_sources(cfg, p, o.stmt, _seen)
-                else:
-                    out.append(("expr", o.expr, o.path))
+                out += _split_display(cfg, o.expr, tuple(o.path), o.stmt, _seen)
             else:
                 out.append(("other", o.expr, o.path))
         return out
     return [("expr", e, ())]
+
+
+def _split_display(cfg, e: ast.AST, path: tuple, at, _seen) -> List[Tuple[str, object, tuple]]:
+    """Sources of component ``path`` of ``e``: ``a if c else b`` is either arm, and a component of a
+    tuple display is that element (``x, y = f() if c else (None, [])`` reads like the if/else)."""
+    if isinstance(e, ast.IfExp):
+        return _split_display(cfg, e.body, path, at, _seen) + _split_display(cfg, e.orelse, path, at, _seen)
+    if path and isinstance(e, (ast.Tuple, ast.List)) and path[0] < len(e.elts) and not any(isinstance(x, ast.Starred) for x in e.elts[: path[0] + 1]):
+        return _split_display(cfg, e.elts[path[0]], path[1:], at, _seen)
+    if not path:
+        p = _peel(e)
+        if (p is not e or isinstance(p, ast.Name)) and id(p) not in _seen:
+            _seen.add(id(p))
+            return _whole_sources(cfg, p, at, _seen)
+    return [("expr", e, path)]
 
 
 def _describe(srcs) -> str:
@@ -1154,17 +1164,58 @@ def _r02f(chk, repo) -> None:
     if not ps:
         raise AnalysisError("R02f: parse_rendered no longer builds a ParsedString; re-confirm the anchor")
     n = 0
+    rd = cfg.reaching()
+
+    def in_body(node, loop) -> bool:
+        return any(_inside(node, b) for b in loop.body)
+
+    def iter_var(e, at, depth=0):
+        """(for statement, tuple path) when ``e`` at ``at`` holds the loop variable of the iteration
+        ``at`` runs in: the loop target itself, or a local bound to it by an assignment inside the
+        loop body that dominates ``at`` (so it was bound in this same iteration)."""
+        if not isinstance(e, ast.Name) or depth > 4:
+            return None
+        ds = list(rd.defs_at(at, e.id))
+        if len(ds) != 1:
+            return None
+        d = ds[0]
+        if d.kind == "for":
+            return (d.stmt, tuple(d.path)) if in_body(at, d.stmt) else None
+        if d.kind == "assign" and not d.path and isinstance(d.value, ast.Name) and d.stmt is not None and cfg.dominates(d.stmt, at):
+            got = iter_var(d.value, d.stmt, depth + 1)
+            if got is not None and in_body(at, got[0]):
+                return got
+        return None
+
     for c in ps:
         a = arg_of(c, 0, "parsed_variants")
         if not isinstance(a, ast.Name):
             chk.fail("R02f", c, "ParsedString.parsed_variants is not a local list whose appends can be followed", detail="parse_rendered: variants list is a local")
             continue
-        for kind, node in _muts(pr, a.id):
+        # every local that may name the same list object (``all_variants = parsed_variants``)
+        names = {a.id}
+        grew = True
+        while grew:
+            grew = False
+            for st in walk_local(pr):
+                if isinstance(st, (ast.Assign, ast.AnnAssign)) and isinstance(st.value, ast.Name):
+                    tgs = [t.id for t in (st.targets if isinstance(st, ast.Assign) else [st.target]) if isinstance(t, ast.Name)]
+                    for x, y in [(st.value.id, t) for t in tgs] + [(t, st.value.id) for t in tgs]:
+                        if x in names and y not in names:
+                            names.add(y)
+                            grew = True
+        for kind, node in [m for nm in sorted(names) for m in _muts(pr, nm)]:
             n += 1
-            if kind != "append" or not isinstance(node, ast.Call) or len(node.args) != 1:
+            one = None
+            if kind == "append" and isinstance(node, ast.Call) and len(node.args) == 1 and not node.keywords and not isinstance(node.args[0], ast.Starred):
+                one = node.args[0]
+            elif kind == "augassign" and isinstance(node.op, ast.Add) and isinstance(node.value, ast.List) and len(node.value.elts) == 1 and not isinstance(node.value.elts[0], ast.Starred):
+                one = node.value.elts[0]  # ``xs += [v]`` is ``xs.append(v)``
+            if one is None:
                 chk.fail("R02f", node, f"the list of parsed variants is changed by `{kind}`, not by appending one freshly built ParsedVariant", detail=f"parse_rendered: variants list {kind}")
                 continue
-            v = node.args[0]
+            v = one
+            node = node if isinstance(node, ast.Call) else node.value
             if isinstance(v, ast.Name):
                 v = sole_expr_origin(cfg, v, cfg.stmt_of(node)) or v
             built = isinstance(v, ast.Call) and (callee(repo, v) or (None, None))[1] is pv
@@ -1185,8 +1236,10 @@ def _r02f(chk, repo) -> None:
                     for k2, x2, p2 in (_whole_sources(cfg, ta, cfg.stmt_of(x)) if ta is not None else []):
                         if k2 == "expr" and isinstance(x2, ast.Call) and last_attr(x2) == "_lex_templated_file":
                             la = arg_of(x2, 0, "templated_file")
-                            lexed_from.add(norm(la) if la is not None else "?")
-            same = tf is not None and lexed_from == {norm(tf)} and isinstance(tf, ast.Name) and for_origin(cfg, tf, cfg.stmt_of(node)) is not None
+                            lexed_from.add((iter_var(la, cfg.stmt_of(x2)) or norm(la)) if la is not None else "?")
+            tf_var = iter_var(tf, cfg.stmt_of(node)) if tf is not None else None
+            same = tf_var is not None and lexed_from == {tf_var}
+            lexed_from = {x if isinstance(x, str) else f"loop variable of line {x[0].lineno}" for x in lexed_from}
             chk.require(
                 same, "R02f", node,
                 f"ParsedVariant.templated_file is `{short(tf) if tf is not None else '<missing>'}` but its tree was parsed from tokens lexed from {sorted(lexed_from) or 'nothing visible'}: "
@@ -1662,5 +1715,36 @@ VARIANTS: List[Variant] = [
         "        return ParsedString(\n            parsed_variants=parsed_variants,\n",
         "        all_variants = parsed_variants\n        return ParsedString(\n            parsed_variants=all_variants,\n",
         "QUIET", None, "the list handed to ParsedString through one more local",
+    ),
+    # breaking twins of the R02f re-spellings above
+    Variant(
+        "r02f-twin-augmented-append-with-root-file", LINTER,
+        '            parsed_variants.append(\n                ParsedVariant(\n                    variant,\n                    parsed,\n                    lex_errors,\n                    parse_errors,\n                )\n            )\n',
+        "            parsed_variants += [\n                ParsedVariant(\n                    rendered.templated_variants[0],\n                    parsed,\n                    lex_errors,\n                    parse_errors,\n                )\n            ]\n",
+        "R02f", "parse_rendered", "+= [..] spelling, tree paired with the root templated file",
+    ),
+    Variant(
+        "r02f-twin-alias-keeps-the-first-variant", LINTER,
+        '            parsed_variants.append(\n                ParsedVariant(\n                    variant,\n                    parsed,\n                    lex_errors,\n                    parse_errors,\n                )\n            )\n',
+        '            if idx == 0:\n                first_variant = variant\n            parsed_variants.append(\n                ParsedVariant(\n                    first_variant,\n                    parsed,\n                    lex_errors,\n                    parse_errors,\n                )\n            )\n',
+        "R02f", "parse_rendered", "alias spelling, but the alias is bound in the first iteration only and carried over",
+    ),
+    Variant(
+        "r02f-twin-alias-bound-after-the-lex-of-the-next", LINTER,
+        "            tokens, lex_errors = cls._lex_templated_file(variant, rendered.config)\n",
+        "            stored_as = variant\n            for variant in rendered.templated_variants[idx:]:\n                pass\n            tokens, lex_errors = cls._lex_templated_file(variant, rendered.config)\n",
+        "R02f", "parse_rendered", "lexes the last variant, stores every tree under the loop's own variant",
+    ),
+    Variant(
+        "r02f-twin-conditional-expression-reuses-first-tree", LINTER,
+        '            if tokens:\n                parsed, parse_errors = cls._parse_tokens(\n                    tokens,\n                    rendered.config,\n                    fname=rendered.fname,\n                    parse_statistics=parse_statistics,\n                )\n            else:  # pragma: no cover\n                parsed = None\n                parse_errors = []\n',
+        "            parsed, parse_errors = (\n                cls._parse_tokens(\n                    tokens,\n                    rendered.config,\n                    fname=rendered.fname,\n                    parse_statistics=parse_statistics,\n                )\n                if tokens and not parsed_variants\n                else (parsed_variants[0].tree, [])\n            )\n",
+        "R02a", "parse_rendered", "conditional-expression spelling; later variants reuse the first variant's tree",
+    ),
+    Variant(
+        "r02f-twin-extend-with-relabelled-variants", LINTER,
+        "        time_dict = {\n            **rendered.time_dict,\n            \"lexing\": _lexing_time,\n",
+        "        all_variants = parsed_variants\n        all_variants += [pv._replace(templated_file=rendered.templated_variants[0]) for pv in parsed_variants[1:]]\n        time_dict = {\n            **rendered.time_dict,\n            \"lexing\": _lexing_time,\n",
+        "R02f", "parse_rendered", "relabelled copies added through an alias of the list",
     ),
 ]
